@@ -43,8 +43,14 @@ func entryPointsKeepNoState(w *World, r *Report, prop string, roots []*ssa.Funct
 			continue
 		}
 		var bad []frameFinding
+		// a write that does not depend on what the routine was given (a table built once from constants: `once.Do(func() { index =
+		// build() })`) is initialisation, not state carried from one input to the next
+		inputFree := inputIndependentWrites(fn)
 		for _, f := range scanFrame(w, fn, mparams, &nw) {
 			if f.rule == "C14/no-shared-state" || strings.Contains(f.what, "package-level") || strings.Contains(f.what, "reached through shared global") {
+				if inputFree[f.pos] {
+					continue
+				}
 				bad = append(bad, f)
 			}
 		}
@@ -72,6 +78,26 @@ func entryPointsKeepNoState(w *World, r *Report, prop string, roots []*ssa.Funct
 			}
 			if !writes {
 				return
+			}
+			if strings.HasPrefix(n, "(*sync.Once).Do") && len(cc.Args) == 2 {
+				// once-only initialisation by a function that captures nothing of this call: input independent
+				switch a := cc.Args[1].(type) {
+				case *ssa.Function:
+					return
+				case *ssa.MakeClosure:
+					if len(a.Bindings) == 0 {
+						return
+					}
+					free := true
+					for _, bnd := range a.Bindings {
+						if _, isGlobal := valueRoot(bnd).(*ssa.Global); !isGlobal {
+							free = false
+						}
+					}
+					if free {
+						return
+					}
+				}
 			}
 			if cls, via := w.baseClass(cc.Args[0]); cls == "global" {
 				bad = append(bad, frameFinding{rule: "C14/no-shared-state", what: fmt.Sprintf("%s on package-level variable %s", n, via), pos: w.instrPos(ins)})
@@ -119,4 +145,77 @@ func compileEntryRoots(w *World) []*ssa.Function {
 func allEntryRoots(w *World) []*ssa.Function {
 	rs := append(formatEntryRoots(w), compileEntryRoots(w)...)
 	return append(rs, cobraRunFuncs(w)...)
+}
+
+// inputIndependentWrites: positions of the stores / map updates of fn whose address index, key and value derive from no parameter,
+// receiver or captured variable of fn and that no branch on such a value dominates.
+func inputIndependentWrites(fn *ssa.Function) map[string]bool {
+	out := map[string]bool{}
+	if theWorld == nil {
+		return out
+	}
+	memo := map[ssa.Value]bool{}
+	var dep func(v ssa.Value, depth int) bool
+	dep = func(v ssa.Value, depth int) bool {
+		if v == nil {
+			return false
+		}
+		if d, ok := memo[v]; ok {
+			return d
+		}
+		if depth > 40 {
+			return true
+		}
+		memo[v] = false
+		res := false
+		switch x := v.(type) {
+		case *ssa.Parameter, *ssa.FreeVar:
+			res = true
+		case *ssa.Const, *ssa.Global, *ssa.Function, *ssa.Builtin:
+			res = false
+		case ssa.Instruction:
+			for _, op := range x.Operands(nil) {
+				if op != nil && *op != nil && dep(*op, depth+1) {
+					res = true
+					break
+				}
+			}
+			// a local variable: what is stored into it
+			if al, ok := v.(*ssa.Alloc); ok && !res && al.Referrers() != nil {
+				for _, ref := range *al.Referrers() {
+					if st, ok := ref.(*ssa.Store); ok && st.Addr == ssa.Value(al) && dep(st.Val, depth+1) {
+						res = true
+					}
+				}
+			}
+		default:
+			res = true
+		}
+		memo[v] = res
+		return res
+	}
+	ctrl := func(b *ssa.BasicBlock) bool {
+		for _, d := range fn.Blocks {
+			if d == b || !d.Dominates(b) {
+				continue
+			}
+			if c := branchCond(d); c != nil && dep(c, 0) {
+				return true
+			}
+		}
+		return false
+	}
+	forEachInstr(fn, func(b *ssa.BasicBlock, ins ssa.Instruction) {
+		switch x := ins.(type) {
+		case *ssa.Store:
+			if !dep(x.Val, 0) && !dep(x.Addr, 0) && !ctrl(b) {
+				out[theWorld.instrPos(ins)] = true
+			}
+		case *ssa.MapUpdate:
+			if !dep(x.Key, 0) && !dep(x.Value, 0) && !dep(x.Map, 0) && !ctrl(b) {
+				out[theWorld.instrPos(ins)] = true
+			}
+		}
+	})
+	return out
 }
